@@ -138,6 +138,29 @@ def build(r, pos, nl):
     elif pos == "control":
         ln = main.add("% if boom('T'):" + nl + "x" + nl + "% endif" + nl)
         chain = [(M, ln)]
+    elif pos in ("for-iterable", "for-iterable-loop"):
+        # with `loop` used in the body the iterable is evaluated on a generated line of its own, before the `for`
+        ln = main.add("% for q_ in boom('T'):" + nl + ("${loop.index}:${q_}" if pos == "for-iterable-loop" else "${q_}") + nl + "% endfor" + nl)
+        chain = [(M, ln)]
+    elif pos == "loop-body":
+        ln = main.add("% for q_ in (1, 2):" + nl + "text in the loop" + nl + "${loop.index} ${boom('T')}" + nl + "% endfor" + nl)
+        chain = [(M, ln + 2)]
+    elif pos == "elif-test":
+        ln = main.add("% if False:" + nl + "x" + nl + "% elif boom('T'):" + nl + "y" + nl + "% endif" + nl)
+        chain = [(M, ln + 2)]
+    elif pos == "while-test":
+        ln = main.add("% while boom('T'):" + nl + "x" + nl + "% endwhile" + nl)
+        chain = [(M, ln)]
+    elif pos == "call-expr":
+        ln = main.add('<%call expr="boom(\'T\')">' + nl + "body" + nl + "</%call>" + nl)
+        chain = [(M, ln)]
+    elif pos == "tag-attr":
+        ln = main.add("before" + nl + '<%self:e1 a="${boom(\'T\')}"/>' + nl) + 1
+        main.add('<%def name="e1(a)">' + nl + "${a}" + nl + "</%def>" + nl)
+        chain = [(M, ln)]
+    elif pos == "include-file-expr":
+        ln = main.add('<%include file="${boom(\'T\')}"/>' + nl)
+        chain = [(M, ln)]
     elif pos in ("code-line", "module-line"):
         n = r.randint(2, 5)
         k = r.randrange(n)
@@ -226,7 +249,8 @@ def build(r, pos, nl):
 
 
 # (a raise in a <%! %> block happens while the Template is constructed, before it can be rendered: out of scope)
-POSITIONS = ["expr", "expr-multiline", "control", "code-line", "def", "nested-def", "call-body", "block", "anon-block",
+POSITIONS = ["expr", "expr-multiline", "control", "for-iterable", "for-iterable-loop", "loop-body", "elif-test", "while-test", "call-expr", "tag-attr",
+             "include-file-expr", "code-line", "def", "nested-def", "call-body", "block", "anon-block",
              "filter", "decorator", "include", "namespace-def", "inherit-base", "inherit-child"]
 PATHS = ["put_string", "file-lookup", "moddir-first", "moddir-reload"]
 
@@ -411,6 +435,10 @@ WARNERS = {
     "invalid-escape": ("${len('\\d')}", SyntaxWarning),
     "code-is-literal": ("<%\n    wq_ = 1\n    wr_ = (wq_ is 1)\n%>", SyntaxWarning),
     "module-warn": ("<%!\n    mw_ = 1\n    warn_here('planted-warning')\n%>", UserWarning),
+    "control-is-literal": ("% if 1 is 1:\nx\n% endif", SyntaxWarning),
+    "for-iterable-escape": ("% for wi_ in ('\\d',):\n${wi_}\n% endfor", SyntaxWarning),
+    "for-iterable-escape-loop": ("% for wi_ in ('\\d',):\n${loop.index}${wi_}\n% endfor", SyntaxWarning),
+    "def-body-is-literal": ("<%def name=\"wd_()\">\nline\n${2 is 2}\n</%def>", SyntaxWarning),
 }
 
 
@@ -422,7 +450,7 @@ def run_warning_case(r, wname, action, path, nl, res):
     filler(r, d0, r.randint(0, 4))
     construct = construct.replace("\n", nl)
     ln = d0.add(construct + nl)
-    off = {"is-literal": 0, "invalid-escape": 0, "code-is-literal": 2, "module-warn": 2}[wname]
+    off = {"is-literal": 0, "invalid-escape": 0, "code-is-literal": 2, "module-warn": 2, "def-body-is-literal": 2}.get(wname, 0)
     line = ln + off
     filler(r, d0, r.randint(0, 2))
     text = d0.text()
